@@ -3,7 +3,7 @@
    read, whether the name is bound at that point).  ./check C17 judges rattr's own warnings with the
    Coq checkers `spurious` / `unwarned`.  Proved for all inputs: the warning decision and the scope-chain
    laws it rests on; the finding classes are kernel-checked on the model. *)
-From RattrV Require Import Base Str PyAst Naming Spell Context FuncAn Occurs Binding FaCheck FaSpecCheck FaFacts FaMono C01Proofs C17Proofs C01Complete C17Quiet.
+From RattrV Require Import Base Str PyAst Naming Spell Context FuncAn Occurs Binding FaCheck FaSpecCheck FaFacts FaMono C01Proofs C17Proofs C01Complete C17Quiet C17Store.
 Open Scope string_scope.
 Open Scope list_scope.
 
@@ -68,3 +68,16 @@ Theorem C17_unbound_variable_is_warned_about :
     mem id ATTR_BUILTINS = false -> v_ctx s = c -> ctx_in c id = false -> starts_with LITERAL_PREFIX id = false ->
     v_warn (snd (visit mexists modulename (EName id Load p) s)) = v_warn s ++ [(id, pos_of (EName id Load p))].
 Proof. exact unbound_variable_is_warned_about. Qed.
+
+(* ---------- stores into a part of a variable (proofs/C17Store.v) ---------- *)
+(* `x.a = v` and `x[i] = v` define nothing: the binding step of the assignment leaves the scope chain as it is, so x
+   is not made visible by them (before the repair of KF_C17_6 the base name x was registered and a read of an unbound
+   or deleted x went unwarned) *)
+Theorem C17_attribute_store_defines_nothing :
+  forall x a px p s, add_identifiers (EAttr (EName x Store px) a Store p) s = (Ok tt, s).
+Proof. exact attribute_store_defines_nothing. Qed.
+Print Assumptions C17_attribute_store_defines_nothing.
+Theorem C17_item_store_defines_nothing :
+  forall x i px p s, add_identifiers (ESub (EName x Store px) i Store p) s = (Ok tt, s).
+Proof. exact item_store_defines_nothing. Qed.
+Print Assumptions C17_item_store_defines_nothing.
